@@ -159,6 +159,14 @@ def correspondence(ctx):
         U, SIG, _Vt = svds[0][1]
         Q, Rm = qrs[0][1]
         Rinv = [np.asarray(o) for (_a, o) in invs]
+        # the recorded factors satisfy the contracts the theorems assume (SvdOf, QrOf) to rounding
+        hs = max(np.abs(H).max(), 1e-300)
+        ks = len(SIG)
+        ctx.contract("svd", max(np.abs((U[:, :ks] * SIG) @ _Vt[:ks, :] - H).max() / hs, np.abs(U.T @ U - np.eye(U.shape[1])).max(), float(np.max(np.diff(SIG), initial=0.0)) / hs),
+                     1e-10, "H = U diag(S) V^T, U^T U = I, S non-increasing")
+        Aq = np.asarray(qrs[0][0][0])
+        ctx.contract("qr", max(np.abs(Q @ Rm - Aq).max() / max(np.abs(Aq).max(), 1e-300), np.abs(Q.T @ Q - np.eye(Q.shape[1])).max(), np.abs(np.tril(Rm, -1)).max()),
+                     1e-10, "A = Q R, Q^T Q = I, R upper triangular")
         if len(Rinv) != ordmax + 1:
             # the code no longer forms inv(R[:n,:n]) explicitly (e.g. np.linalg.solve): the model's factor is then a float
             # inverse of the recorded triangular factor, computed here -- same contract, same tolerance
